@@ -202,7 +202,7 @@ pub fn csi() -> BoxedStrategy<Tok> {
     // generic: every final byte, every intermediate
     let generic = (
         prop_oneof![6 => Just(0u8), 1 => Just(b'?'), 1 => Just(b'='), 1 => Just(b'!'), 1 => Just(b'<')],
-        params(0..=7),
+        prop_oneof![12 => params(0..=7), 1 => params(8..=40)],
         prop_oneof![6 => Just(0u8), 2 => Just(b' '), 2 => Just(b'$'), 2 => Just(b'*')],
         0x40u8..=0x7E,
     )
@@ -368,9 +368,23 @@ fn osc() -> BoxedStrategy<Tok> {
         v.extend(u);
         v
     });
+    // long URIs (string-collecting states have no length limit of their own): lengths around typical limits (256, 1 KiB, 2083, 4 KiB, 8 KiB),
+    // ASCII prefix of any parity followed by high bytes (which are two bytes each once stored in a String)
+    let link_long = (
+        prop_oneof![Just(250usize), Just(1020), Just(2040), Just(2075), Just(4090), Just(8185)],
+        0usize..=24,
+        0usize..=40,
+        prop_oneof![2 => 0x80u8..=0xFF, 1 => 0x21u8..=0x7E],
+    )
+        .prop_map(|(base, extra, ascii, fill)| {
+            let mut v = b"8;;".to_vec();
+            v.extend(std::iter::repeat(b'a').take(ascii));
+            v.extend(std::iter::repeat(fill).take(base + extra));
+            v
+        });
     let link_close = Just(b"8;;".to_vec());
     let other = vec(any::<u8>().prop_filter("no esc", |b| *b != 0x1B), 0..=10);
-    prop_oneof![3 => pal, 3 => link_open, 3 => link_close, 1 => other]
+    prop_oneof![6 => pal, 6 => link_open, 6 => link_close, 2 => other, 1 => link_long]
         .prop_map(|p| {
             let mut v = vec![0x1B, b']'];
             v.extend(p);
@@ -436,7 +450,7 @@ fn emu_specific(emu: u8) -> BoxedStrategy<Tok> {
 pub fn token(emu: u8, with_resize: bool) -> BoxedStrategy<Tok> {
     let c0 = prop_oneof![4 => prop::sample::select(vec![7u8, 8, 9, 10, 12, 13, 0x7F, 0]), 1 => 0u8..=0x1F].prop_map(|b| vec![Piece::Lit(vec![b])]);
     let esc = (Just(0x1Bu8), prop_oneof![3 => prop::sample::select(b"78cDMEH".to_vec()), 1 => any::<u8>()]).prop_map(|(a, b)| vec![Piece::Lit(vec![a, b])]);
-    let aps = vec(any::<u8>().prop_filter("no esc", |b| *b != 0x1B), 0..=8).prop_map(|p| {
+    let aps = prop_oneof![12 => vec(any::<u8>().prop_filter("no esc", |b| *b != 0x1B), 0..=8), 1 => vec(prop_oneof![0x20u8..=0x7E, 0x80u8..=0xFF], 250..=300)].prop_map(|p| {
         let mut v = vec![0x1B, b'_'];
         v.extend(p);
         v.extend(b"\x1b\\");
